@@ -434,3 +434,50 @@ func H_C09_toplevel() {
 	}
 	verifReach("C09.toplevel.ok")
 }
+
+// a struct value as the very first field: it has the address of the enclosing struct (any bookkeeping keyed by address
+// alone confuses the two); also reached through a slice of struct values, whose first element shares the array's address
+type pHead struct {
+	Sec  string `class:"secret"`
+	Sens string `class:"sensitive"`
+}
+
+type pFirst struct {
+	Head pHead
+	Tail string `class:"secret"`
+	Arr  []pHead
+}
+
+func H_C09_first_field() {
+	c := symEnv()
+	in := &pFirst{Head: pHead{Sec: nondetString(), Sens: nondetString()}, Tail: nondetString(), Arr: []pHead{{Sec: nondetString()}, {Sec: nondetString()}}}
+	snap := *in
+	a0, a1 := in.Arr[0].Sec, in.Arr[1].Sec
+	e := newEvent(in)
+	out, err := c.ef.Process(context.Background(), e)
+	verifAssert(in.Head == snap.Head && in.Tail == snap.Tail && in.Arr[0].Sec == a0 && in.Arr[1].Sec == a1, "C10.first-field.original-untouched")
+	if c.o.allNone() || (c.w == nil && c.o.needsWrapper()) {
+		return
+	}
+	if err != nil {
+		verifAssert(out == nil, "C09.first-field.error-forwards-nothing")
+		return
+	}
+	if out == nil {
+		return
+	}
+	op, ok := out.Payload.(*pFirst)
+	verifAssert(ok && op != in, "C10.first-field.same-dynamic-type-distinct-object")
+	if !ok {
+		return
+	}
+	c.checkLeaf(op.Head.Sec, snap.Head.Sec, "secret", NoOperation, "C09.first-field.head.secret")
+	c.checkLeaf(op.Head.Sens, snap.Head.Sens, "sensitive", NoOperation, "C09.first-field.head.sensitive")
+	c.checkLeaf(op.Tail, snap.Tail, "secret", NoOperation, "C09.first-field.tail")
+	verifAssert(len(op.Arr) == 2, "C10.first-field.slice-length-kept")
+	if len(op.Arr) == 2 {
+		c.checkLeaf(op.Arr[0].Sec, a0, "secret", NoOperation, "C09.first-field.arr0.secret")
+		c.checkLeaf(op.Arr[1].Sec, a1, "secret", NoOperation, "C09.first-field.arr1.secret")
+	}
+	verifReach("C09.first-field.ok")
+}
